@@ -80,6 +80,8 @@ extern int os_unmapped_ok;          /* munmap called exactly with the mapping */
 extern unsigned char os_written[64]; /* what reached the "file" through fwrite */
 extern unsigned os_written_n;
 extern int os_fopen_live, os_fclose_ok;
+#define OS_PREV_NATIVE 60
+extern unsigned os_file_prev_len, os_file_len, os_file_pos;
 extern unsigned os_anon_len;       /* true size of the managed code mapping */
 unsigned char *os_code_base(void);  /* its current address (symbolic build) */
 /* contents model of the code mappings: the byte at one nondeterministic logical offset */
